@@ -14,6 +14,15 @@ class ExecutorDied(Exception):
         self.rc = rc
 
 
+class CredentialRefused(Exception):
+    """A constructor / conversion of NormalizedString refused a string that is valid by the rule (the drivers send no others)."""
+
+    def __init__(self, cmd, ev):
+        Exception.__init__(self, "valid credential refused: %s" % ev.f)
+        self.cmd = cmd
+        self.f = ev.f
+
+
 class Event:
     __slots__ = ("status", "f", "rng", "cmd")
 
@@ -91,6 +100,8 @@ class Wsx:
             else:
                 f[k] = v
         ev = Event(status, f, rng, cmd)
+        if status == "err" and f.get("stage") == "credential":
+            raise CredentialRefused(cmd, ev)
         self.calls += 1
         if self.record is not None:
             self.record.append(ev.as_json())
